@@ -27,10 +27,10 @@ def run(ctx):
         r.lost(rule, 'legacy_password_decrypt', 'not found')
     else:
         F = ctx.facts(b)
-        oks = result_ctor_sites(b, 'Ok')
+        oks = success_sites(b)
         if not oks:
             r.lost(rule, 'legacy_password_decrypt:Ok', 'no Ok construction')
-        for bb, si, pl in oks:
+        for bb, si in oks:
             lits = F.literals_at(bb, si)
             t = [fmt_lit(b, l) for l, e in lits]
             nonce = any('server_nonce' in x and (' eq ' in x) for x in t)
